@@ -176,6 +176,9 @@ func (c03) Gen(tier string, seed int64) []fw.Unit {
 	for _, fd := range foreignDigitStrings() {
 		add("foreign-digits", []byte(fd), 33, 0)
 	}
+	for _, sp := range structuredPayloads() {
+		add("structured", sp, 33, 0)
+	}
 	// random bytes
 	for i := 0; i < 100*scale; i++ {
 		n := 1 + r.Intn(80)
